@@ -1,6 +1,7 @@
 import NodisVerif.Driver.CodecOps
 import NodisVerif.Driver.ApiOps
 import NodisVerif.Driver.RespOps
+import NodisVerif.Driver.FragOps
 open NodisVerif
 
 structure DState where
@@ -28,6 +29,7 @@ def step (d : DState) (line : String) : DState × String :=
   match toks with
   | [] => (d, "")
   | "ck" :: _ | "dk" :: _ | "ev" :: _ => (d, Driver.codecOp toks)
+  | "frag" :: rest => (d, Driver.fragOp rest)
   | "open" :: id :: backend :: _ =>
     ({ d with cur := id }.putSv { store := { pebble := backend == "pebble" } }, "ok")
   | ["inst", id] => ({ d with cur := id }, "ok")
